@@ -879,8 +879,9 @@ class NumEnv:
     """Deterministic pseudo-random assignment used only for the Schwartz-Zippel style
     double check of a failed identity (never for a positive verdict)."""
 
-    def __init__(s, seed=0, nat=3):
+    def __init__(s, seed=0, nat=3, heavy=False):
         s.seed = seed; s.nat = nat; s.bound = {}; s.fixed = {}
+        s.heavy = heavy        # magnitudes log-uniform over many decades: exercises both sides of clamps (max(x, 1e-12), clip, ...)
 
     def _u(s, *key):
         h = hashlib.sha256(repr((s.seed,) + key).encode()).digest()
@@ -891,6 +892,13 @@ class NumEnv:
         if a.name in s.fixed: return s.fixed[a.name]
         k = KIND.get(a.name, a.kind)
         if k == "nat": return float(2 + int(s._u("v", a.name) * s.nat))
+        if s.heavy:
+            mag = 10.0 ** (60 * s._u("h", a.name) - 30)
+            if k == "pos": return mag
+            if k == "complex":
+                import cmath
+                return mag * cmath.exp(2j * math.pi * s._u("hp", a.name))
+            return mag if s._u("hs", a.name) < 0.5 else -mag
         if k == "pos": return 0.5 + 1.5 * s._u("v", a.name)
         if k == "complex": return complex(2 * s._u("v", a.name) - 1, 2 * s._u("vi", a.name) - 1)
         return 4 * s._u("v", a.name) - 2
@@ -992,5 +1000,18 @@ def compare(x, y, prepare=None, seed=0):
     except (Unknown, OverflowError, ZeroDivisionError, ValueError) as ex:
         return "UNKNOWN", f"normal forms differ and numeric cross-check impossible: {ex}"
     if same:
+        # expressions with clamps (min / max against something) are piecewise: sample magnitudes over many decades as well
+        names = {a.name for z in (x, y) for a in z.all_atoms() if a.tag == "fn"}
+        if names & {"min", "max"}:
+            for sd in range(seed + 11, seed + 51):
+                env = NumEnv(sd, heavy=True)
+                if prepare: prepare(env)
+                try:
+                    a = evalx(x, env); b = evalx(y, env)
+                except (Unknown, OverflowError, ZeroDivisionError, ValueError):
+                    continue
+                if a != a or b != b or abs(a) == float("inf") or abs(b) == float("inf"): continue
+                if abs(a - b) > 1e-8 * (1 + abs(a) + abs(b)):
+                    return "VIOLATED", "the two forms differ where a clamp (min/max) is active"
         return "UNKNOWN", "normal forms differ but values agree numerically (normaliser incompleteness)"
     return "VIOLATED", ""
